@@ -82,7 +82,7 @@ def one_case(ctx, rng, wd, K=None, mode=None):
     frames = int(rng.choice([1, 1, 2, 4]))
     d = int(rng.choice([2, 3]))
     retype = bool(frames > 1 and rng.random() < 0.35)
-    snaps, inf, cell = gc.static_system(rng, d=d, K=K, cellkind="ortho", frames=frames, nmin=max(2, K), nmax=60, retype=retype)
+    snaps, inf, cell = gc.static_system(rng, d=d, K=K, cellkind="ortho", frames=frames, nmin=max(2, K), nmax=60, retype=retype, big="xl" if ctx.thorough else True)
     L = np.diag(cell["H"]).copy()
     types = snaps.snapshots[0].particle_type
     Kreal = len(np.unique(types))
@@ -113,7 +113,19 @@ def one_case(ctx, rng, wd, K=None, mode=None):
         cand = np.unique(cand, axis=0)
         cand = cand[rng.permutation(len(cand))]
         nvec = [tuple(int(v) for v in row) for row in cand]
-        kwargs = {"qvector": np.array(nvec, dtype=np.int64)}
+        qarr = np.array(nvec, dtype=np.int64)
+        qrep = ["int64", "int64", "int32", "readonly", "fortran", "strided"][(len(nvec) + N) % 6]
+        if qrep == "int32":
+            qarr = qarr.astype(np.int32)
+        elif qrep == "readonly":
+            qarr.setflags(write=False)
+        elif qrep == "fortran":
+            qarr = np.asfortranarray(qarr)
+        elif qrep == "strided":
+            big = np.zeros((len(nvec), 2 * d), dtype=np.int64)
+            big[:, ::2] = qarr
+            qarr = big[:, ::2]
+        kwargs = {"qvector": qarr}
     save = rng.random() < 0.35
     outfile = os.path.join(wd, "sq_out.csv") if (save or rng.random() < 0.2) else None
     info = lambda: {"d": d, "N": N, "K": Kreal, "L": L, "frames": frames, "mode": mode, "onlypositive": onlypos,  # noqa: E731
@@ -130,6 +142,9 @@ def one_case(ctx, rng, wd, K=None, mode=None):
     if res is None:
         ctx.violation(key + "/none", "getresults returned None", info())
         return
+    if mode == "explicit":
+        ctx.check("qvector_untouched", np.array_equal(np.asarray(kwargs["qvector"]), np.array(nvec)), key + "/qvector_modified",
+                  "the caller's wave-vector array was modified", info)
     ref, qn = reference([s.positions for s in snaps.snapshots], [s.particle_type for s in snaps.snapshots], L, nvec)
     # --- direct check of the wave-vector set / per-vector values through the _qvectors.csv
     if save:
